@@ -1,5 +1,5 @@
 """C14 - APBP mailboxes and semaphores follow the documented handshake in both directions."""
-from .. import mmio, callgraph
+from .. import mmio, callgraph, boolform
 from ..astq import walk, direct_writes, field_path, unwrap_casts, const_value
 from ..guards import guards_at
 from ..norm import render, render_stmt, Renderer, short_fn
@@ -21,39 +21,39 @@ def h1_channel(ctx, CG):
     F = ctx.F['functions']
     f = ctx.fn(DC + '::Send(unsigned short)')
     ctx.inst(R)
+    FM = boolform.Former(f)
+    DIS, HND = boolform.A('f:%s::disable_interrupt' % DC), boolform.A('f:%s::handler' % DC)
     ws = {}
     for p, n, how in direct_writes(f['body']):
-        ws[p[1]] = (render(n.get('rhs'), f, param_names=True), CG.locks_held_at(f, n))
-    if set(ws) != {'ready', 'data'} or ws.get('ready', ('',))[0] != '1' or ws.get('data', ('',))[0] != '$data':
+        ws[p[1]] = (render(n.get('rhs'), f), CG.locks_held_at(f, n))
+    if set(ws) != {'ready', 'data'} or ws.get('ready', ('',))[0] != '1' or ws.get('data', ('',))[0] != '$0':
         ctx.report(R, f, f['body'], 'DataChannel::Send writes', 'Send must set ready = true and data = value and nothing else: %s' % {k: v[0] for k, v in ws.items()})
     for k, (rhs, locks) in ws.items():
         if (DC, 'mutex') not in [l[0] for l in locks]:
             ctx.report(R, f, f['body'], 'DataChannel::Send lock ' + k, 'write of %s is not under the channel mutex' % k)
     for p, n, how in direct_writes(f['body']):
-        g = guards_at(f['body'], n)
-        if g:
+        pc = boolform.path_condition(f['body'], n, FM)
+        if boolform.equivalent(pc, boolform.T) is not True:
             ctx.report(R, f, n, 'DataChannel::Send unconditional ' + p[1],
                        'the write of %s is conditional (%s): a send must always latch the value and the ready flag'
-                       % (p[1], [(render(c, f), pol) for c, pol, src in g]))
+                       % (p[1], boolform.show(pc)))
     inv = [n for n in walk(f['body']) if n.get('k') == 'opcall' and n.get('op') == '()' and field_path(n['args'][0]) == (DC, 'handler', None)]
     if len(inv) != 1:
         ctx.report(R, f, f['body'], 'DataChannel::Send handler', 'handler must be invoked at exactly one site (found %d)' % len(inv))
     else:
-        g = guards_at(f['body'], inv[0])
-        conds = {(render(c, f), pol) for c, pol, src in g}
-        if ('f:%s::disable_interrupt' % DC, False) not in conds:
-            ctx.report(R, f, inv[0], 'DataChannel::Send handler guard', 'handler invocation is not guarded by !disable_interrupt: %s' % sorted(conds))
-        extra = {c for c in conds if c[0] not in ('f:%s::disable_interrupt' % DC, 'f:%s::handler' % DC,
-                                                  '(call std::function<void ()>::operator bool on f:%s::handler )' % DC)}
-        if extra:
-            ctx.report(R, f, inv[0], 'DataChannel::Send handler extra guard', 'handler invocation depends on additional conditions: %s' % sorted(extra))
+        pc = boolform.path_condition(f['body'], inv[0], FM)
+        if boolform.implies(pc, boolform.neg(DIS)) is not True:
+            ctx.report(R, f, inv[0], 'DataChannel::Send handler guard', 'handler invocation is not guarded by !disable_interrupt: ' + boolform.show(pc))
+        elif boolform.equivalent(pc, boolform.all_of(boolform.neg(DIS), HND)) is not True \
+                and boolform.equivalent(pc, boolform.neg(DIS)) is not True:
+            ctx.report(R, f, inv[0], 'DataChannel::Send handler extra guard', 'handler invocation depends on additional conditions: ' + boolform.show(pc))
         if CG.locks_held_at(f, inv[0]):
             ctx.report(R, f, inv[0], 'DataChannel::Send handler lock', 'handler is invoked while the channel mutex is held')
-        # the disable test itself must read the flag under the lock
-        for c, pol, src in g:
-            if render(c, f) == 'f:%s::disable_interrupt' % DC:
-                if (DC, 'mutex') not in [l[0] for l in CG.locks_held_at(f, c)]:
-                    ctx.report(R, f, c, 'DataChannel::Send disable test', 'disable_interrupt is tested outside the channel mutex')
+        # the disable flag itself must be read under the lock
+        for n in walk(f['body']):
+            if n.get('k') == 'mem' and n.get('name') == 'disable_interrupt' and n.get('cls') == DC:
+                if (DC, 'mutex') not in [l[0] for l in CG.locks_held_at(f, n)]:
+                    ctx.report(R, f, n, 'DataChannel::Send disable test', 'disable_interrupt is read outside the channel mutex')
     f = ctx.fn(DC + '::Recv()')
     ctx.inst(R)
     if _writes(f) != {('ready', '0')} or [render(n['e'], f) for n in walk(f['body']) if n.get('k') == 'return'] != ['f:%s::data' % DC]:
@@ -141,6 +141,16 @@ def h1_channel(ctx, CG):
     return M
 
 
+def _sig_expr(f):
+    """the `semaphore & ~semaphore_mask` expression node of f, if it has one (used to build the canonical atom)"""
+    for n in walk(f.get('body')):
+        if n.get('k') == 'bin' and n.get('op') == '&':
+            t = render(n, f)
+            if 'Impl::semaphore)' in t and 'Impl::semaphore_mask)' in t and '(~ ' in t:
+                return n
+    return None
+
+
 def h2_h3_semaphore(ctx, CG):
     R2 = 'C14.H2'
     ctx.rule(R2, 'derived signal flag: every function that writes semaphore or semaphore_mask afterwards assigns '
@@ -183,15 +193,24 @@ def h2_h3_semaphore(ctx, CG):
         fi, fn_ = max(flag, key=lambda x: x[0])
         if fi < last_w:
             ctx.report(R2, f, fn_, name, 'semaphore_master_signal is assigned before the last write of semaphore / semaphore_mask')
-        if any(n.get('k') == 'if' and any(x is fn_ for x in walk(n)) for n in stmts):
-            ctx.report(R2, f, fn_, name, 'semaphore_master_signal is only conditionally recomputed')
-        rhs = r.r(fn_.get('rhs'))
-        consts = {p[1]: const_value(n.get('rhs')) for p, n, how in ws if how == '='}
-        ok = rhs in (X, X2, '(|| %s %s)' % (MS, X), '(|| %s %s)' % (X, MS), '(|| %s %s)' % (MS, X2), '(|| %s %s)' % (X2, MS))
-        if not ok and rhs == '0' and f['id'].endswith('Impl::Reset()'):
-            ok = True
+        # value of the flag at exit, per path: assigned value under the path condition of the assignment, the old value
+        # on the remaining paths; it must equal SIG (or old || SIG, which is the same under the invariant old == SIG
+        # before a set) on every path
+        FM = boolform.Former(f)
+        SIG = boolform.A('(& %s %s)' % tuple(sorted([S, '(~ %s)' % Mk])))
+        OLD = boolform.A(MS)
+        wants = [SIG, boolform.disj(OLD, SIG)]
+        if f['id'].endswith('Impl::Reset()'):
+            wants = [boolform.F_]
+        assigned = [(boolform.path_condition(f['body'], n, FM), FM.form(n.get('rhs')), n) for i_, n in flag]
+        rest = boolform.T
+        for pc, v, n in assigned:
+            rest = boolform.all_of(rest, boolform.neg(pc))
+        cases = assigned + [(rest, OLD, fn_)]
+        ok = any(all(boolform.equivalent(v, w, assume=pc) is True for pc, v, n in cases) for w in wants)
         if not ok:
-            ctx.report(R2, f, fn_, name, 'semaphore_master_signal is assigned %s, expected (semaphore & ~semaphore_mask) != 0' % rhs[:200])
+            ctx.report(R2, f, fn_, name, 'semaphore_master_signal is left as %s, expected (semaphore & ~semaphore_mask) != 0'
+                       % ' / '.join('%s when %s' % (boolform.show(v), boolform.show(pc)) for pc, v, n in cases)[:300])
         # operation kinds
         for p, n, how in ws:
             ctx.oblig(R2)
@@ -215,10 +234,12 @@ def h2_h3_semaphore(ctx, CG):
                 ctx.inst(R3)
                 ctx.touch(f)
                 r = Renderer(f)
-                conds = {(r.r(c), pol) for c, pol, src in guards_at(f['body'], n)}
+                FM = boolform.Former(f)
+                pc = boolform.path_condition(f['body'], n, FM)
                 name = short_fn(fid)
-                if (X, True) not in conds and (X2, True) not in conds:
-                    ctx.report(R3, f, n, name + ' handler', 'semaphore handler fired without the freshly computed signal being true: %s' % sorted(conds))
+                SIG = boolform.A('(& %s %s)' % tuple(sorted([S, '(~ %s)' % Mk])))
+                if boolform.implies(pc, SIG) is not True:
+                    ctx.report(R3, f, n, name + ' handler', 'semaphore handler fired without the freshly computed signal being true: ' + boolform.show(pc)[:300])
                 if f['name'] == 'ClearSemaphore':
                     ctx.report(R3, f, n, name + ' handler', 'acknowledging a semaphore must never interrupt the peer')
                 held = CG.locks_held_at(f, n)
